@@ -601,3 +601,118 @@ mod depth_sites {
     de_site!(c07_site_de_struct, S2, [7u8], 1, 0);
     de_site!(c07_site_de_array, A2, [5u8, 0, 0, 0, 1, 0, 0, 0, 7], 0, 1);
 }
+
+/// Harness-provided in-memory writer: fixed buffer, never fails (capacity is asserted instead), trivially seekable.
+pub struct FixedWriter {
+    pub buf: [u8; 48],
+    pub pos: usize,
+}
+impl FixedWriter {
+    pub fn new() -> Self {
+        FixedWriter { buf: [0; 48], pos: 0 }
+    }
+}
+impl std::io::Write for FixedWriter {
+    fn write(&mut self, data: &[u8]) -> std::io::Result<usize> {
+        assert!(data.len() <= 48 - self.pos, "harness buffer too small");
+        let mut i = 0;
+        while i < data.len() {
+            self.buf[self.pos + i] = data[i];
+            i += 1;
+        }
+        self.pos += data.len();
+        Ok(data.len())
+    }
+    fn flush(&mut self) -> std::io::Result<()> {
+        Ok(())
+    }
+}
+impl std::io::Seek for FixedWriter {
+    fn seek(&mut self, p: std::io::SeekFrom) -> std::io::Result<u64> {
+        match p {
+            std::io::SeekFrom::Start(n) => self.pos = n as usize,
+            std::io::SeekFrom::Current(d) => {
+                let np = self.pos as i64 + d;
+                assert!(np >= 0 && np <= 48, "seek outside the harness buffer");
+                self.pos = np as usize;
+            }
+            std::io::SeekFrom::End(d) => self.pos = (48 + d) as usize,
+        }
+        Ok(self.pos as u64)
+    }
+}
+
+mod bisect {
+    use super::{no_format, FixedWriter};
+    use crate::dbus::Serializer as DBusSerializer;
+    use crate::ser::FdList;
+    use crate::serialized::Context;
+    use crate::{Endian, Signature};
+    use serde::ser::{SerializeSeq, Serializer as _};
+    static SIG: Signature = Signature::static_array(&Signature::U64);
+
+    fn run(stage: u8, pos: usize, be: bool) {
+        run2(stage, pos, be, kani::any())
+    }
+    fn run2(stage: u8, pos: usize, be: bool, v: u64) {
+        let ctxt = Context::new_dbus(if be { Endian::Big } else { Endian::Little }, pos);
+        let mut cur = FixedWriter::new();
+        let mut fds = FdList::Number(0);
+        let mut ser = match DBusSerializer::new(&SIG, &mut cur, &mut fds, ctxt) {
+            Ok(s) => s,
+            Err(e) => {
+                core::mem::forget(e);
+                panic!()
+            }
+        };
+        match (&mut ser).serialize_seq(None) {
+            Ok(mut seq) => {
+                if stage >= 2 {
+                    let r = seq.serialize_element(&v);
+                    assert!(r.is_ok());
+                    core::mem::forget(r);
+                }
+                if stage >= 3 {
+                    let r = seq.end();
+                    assert!(r.is_ok());
+                    core::mem::forget(r);
+                } else {
+                    core::mem::forget(seq);
+                }
+            }
+            Err(e) => {
+                core::mem::forget(e);
+                panic!()
+            }
+        }
+        let w = ser.0.bytes_written;
+        core::mem::forget(ser);
+        assert!(w >= 8);
+    }
+    #[kani::proof]
+    #[kani::unwind(9)]
+    #[kani::stub(alloc::fmt::format, no_format)]
+    fn bis2() {
+        run(2, 0, false)
+    }
+    #[kani::proof]
+    #[kani::unwind(9)]
+    #[kani::stub(alloc::fmt::format, no_format)]
+    fn bis3() {
+        run(3, 0, false)
+    }
+    #[kani::proof]
+    #[kani::unwind(9)]
+    #[kani::stub(alloc::fmt::format, no_format)]
+    fn bis5() {
+        run2(2, 0, false, 5)
+    }
+    #[kani::proof]
+    #[kani::unwind(9)]
+    #[kani::stub(alloc::fmt::format, no_format)]
+    fn bis4() {
+        let pos: usize = kani::any();
+        kani::assume(pos < 8);
+        run(3, pos, kani::any())
+    }
+}
